@@ -1,0 +1,48 @@
+//! Verification hooks, compiled only with the `verif-hooks` cargo feature.
+//!
+//! Everything here is inert unless a harness arms it on the current thread:
+//! no hook changes behaviour by itself.
+
+use std::cell::Cell;
+
+thread_local! {
+    static ANCHOR_OVERRIDE: Cell<Option<usize>> = const { Cell::new(None) };
+    static YIELD_HOOK: Cell<Option<fn(&'static str)>> = const { Cell::new(None) };
+}
+
+/// Overrides, for filters compiled on the current thread, the randomly chosen
+/// anchor position of the SIMD `contains` searcher. Positions outside
+/// `1..needle_len` are ignored. Returns the previous setting.
+pub fn set_anchor_override(position: Option<usize>) -> Option<usize> {
+    ANCHOR_OVERRIDE.with(|cell| cell.replace(position))
+}
+
+#[inline]
+pub(crate) fn anchor_override(needle_len: usize) -> Option<usize> {
+    ANCHOR_OVERRIDE
+        .with(|cell| cell.get())
+        .filter(|position| (1..needle_len).contains(position))
+}
+
+/// Returns whether `contains` compiles to the SIMD searcher in this process.
+pub fn simd_active() -> bool {
+    crate::ast::field_expr::verif_simd_active()
+}
+
+/// Installs (or removes) a callback invoked at every scheduling point reached
+/// by the current thread. Returns the previous callback.
+pub fn set_yield_hook(hook: Option<fn(&'static str)>) -> Option<fn(&'static str)> {
+    YIELD_HOOK.with(|cell| cell.replace(hook))
+}
+
+#[inline]
+pub(crate) fn yield_point(site: &'static str) {
+    if let Some(hook) = YIELD_HOOK.with(|cell| cell.get()) {
+        hook(site)
+    }
+}
+
+/// Number of `catch_panic` frames currently catching on this thread.
+pub fn panic_catcher_level() -> u64 {
+    crate::panic::verif_level()
+}
